@@ -38,7 +38,7 @@ determinism)
   ;;
 seeded)
   FAIL=0
-  for D in "$VERIF"/seeded/${2:-*}/; do
+  for D in "$VERIF"/seeded/${1:-*}/; do
     [ -f "$D/patch.diff" ] || continue
     ID="$(basename "$D")"
     PROP="$(python3 -c "import json; m=json.load(open('$D/meta.json')); print(m.get('property_check_for_selftest', m['property']))")"
@@ -57,7 +57,7 @@ seeded)
 replay)
   # every violation reported against a seeded change must replay exactly from its file, in a fresh process
   FAIL=0
-  for D in "$VERIF"/seeded/${2:-*}/; do
+  for D in "$VERIF"/seeded/${1:-*}/; do
     [ -f "$D/patch.diff" ] || continue
     ID="$(basename "$D")"
     PROP="$(python3 -c "import json; m=json.load(open('$D/meta.json')); print(m.get('property_check_for_selftest', m['property'])[:3])")"
